@@ -77,7 +77,7 @@ Fixpoint samples (st : store) (l : lset) : list sample :=
   end.
 
 (* admission rule of the head appender for one float sample (OOO window 0 / DiscardOutOfOrder) *)
-Definition admit (ss : list sample) (t : Z) (v : val) : ares :=
+Definition admission (ss : list sample) (t : Z) (v : val) : ares :=
   match ss with
   | [] => AOk
   | (t0, v0) :: _ =>
@@ -102,7 +102,7 @@ Fixpoint st_put (st : store) (l : lset) (t : Z) (v : val) : store :=
   end.
 
 Definition st_append (st : store) (l : lset) (t : Z) (v : val) : store * ares :=
-  match admit (samples st l) t v with
+  match admission (samples st l) t v with
   | AOk => (st_put st l t v, AOk)
   | r => (st, r)
   end.
